@@ -1,3 +1,3 @@
 """Which units exist and which properties are claimed."""
-UNITS = ['u1_vlq', 'u2_lookup', 'u3_header', 'u6_root', 'u6_builder', 'u4_decode', 'u5_encode', 'u7_index', 'u8_hermes', 'u9_dispatch', 'u10_tail', 'u11_adjust', 'u12_rewrite', 'u13_flatten', 'u14_rambundle', 'u15_inverse', 'u16_hermes_decode', 'u17_relpath', 'u18_detect', 'u19_sourceview', 'u20_funcname', 'u21_entry', 'u22_encode', 'u23_hermes_rewrite']
+UNITS = ['u1_vlq', 'u2_lookup', 'u3_header', 'u6_root', 'u6_builder', 'u4_decode', 'u5_encode', 'u7_index', 'u8_hermes', 'u9_dispatch', 'u10_tail', 'u11_adjust', 'u12_rewrite', 'u13_flatten', 'u14_rambundle', 'u15_inverse', 'u16_hermes_decode', 'u17_relpath', 'u18_detect', 'u19_sourceview', 'u20_funcname', 'u21_entry', 'u22_encode', 'u23_hermes_rewrite', 'u24_roundtrip']
 PROPERTIES = ['C01', 'C02', 'C03', 'C04', 'C05', 'C06', 'C07', 'C08', 'C09', 'C10', 'C11', 'C12', 'C13', 'C14', 'C15', 'C17', 'C18', 'C19', 'C20']
